@@ -452,6 +452,7 @@ type OnCall struct {
 	Ensures  []*Clause
 	Havoc    bool
 	NoHavoc  bool
+	HeapOnly bool // `havoc heap`: byte regions may change, object fields do not
 	Also     bool // extra preconditions only: the callee's own contract (or the unknown-call rule) still applies
 	Site     int      // 0 = every call site; k = only the k-th call site (source order)
 	Modifies []string // field paths rooted at a Go variable that the callee may change even though they are `stable`
@@ -913,6 +914,12 @@ func (db *ContractDB) loadFile(path, pkgPath string) {
 				// inside `on call`: besides the declared effects the callee may change any object or byte region
 				if curOn == nil {
 					errf(l.no, "havoc outside 'on call'")
+					continue
+				}
+				if strings.TrimSpace(rest) == "heap" {
+					// `havoc heap`: byte regions may change, object fields do not
+					curOn.NoHavoc = true
+					curOn.HeapOnly = true
 					continue
 				}
 				curOn.Havoc = true
